@@ -105,27 +105,27 @@ Record state := mk {
   clog : list byte;               (* ... on osStdoutChan *)
   blog : list byte;               (* ... on bypassTmuxChan when it is a channel of its own *)
   ipc : inpc; opc : outpc; hpc : hspc;
-  tl : bool;                      (* a finished worker still holds the lock (deferred Unlock) *)
+  tlk : bool;                     (* a finished worker still holds the lock (deferred Unlock) *)
   hI : list evI; hO : list evO;
   trg : bool;                     (* ghost: the detector has fired at least once *)
 }.
 
-Definition set_st s x := mk x (lk s) (cin s) (sin s) (ibr s) (ibq s) (obr s) (obq s) (slog s) (clog s) (blog s) (ipc s) (opc s) (hpc s) (tl s) (hI s) (hO s) (trg s).
-Definition set_lk s x := mk (st s) x (cin s) (sin s) (ibr s) (ibq s) (obr s) (obq s) (slog s) (clog s) (blog s) (ipc s) (opc s) (hpc s) (tl s) (hI s) (hO s) (trg s).
-Definition set_cin s x := mk (st s) (lk s) x (sin s) (ibr s) (ibq s) (obr s) (obq s) (slog s) (clog s) (blog s) (ipc s) (opc s) (hpc s) (tl s) (hI s) (hO s) (trg s).
-Definition set_sin s x := mk (st s) (lk s) (cin s) x (ibr s) (ibq s) (obr s) (obq s) (slog s) (clog s) (blog s) (ipc s) (opc s) (hpc s) (tl s) (hI s) (hO s) (trg s).
-Definition set_ib s r q := mk (st s) (lk s) (cin s) (sin s) r q (obr s) (obq s) (slog s) (clog s) (blog s) (ipc s) (opc s) (hpc s) (tl s) (hI s) (hO s) (trg s).
-Definition set_ob s r q := mk (st s) (lk s) (cin s) (sin s) (ibr s) (ibq s) r q (slog s) (clog s) (blog s) (ipc s) (opc s) (hpc s) (tl s) (hI s) (hO s) (trg s).
-Definition set_slog s x := mk (st s) (lk s) (cin s) (sin s) (ibr s) (ibq s) (obr s) (obq s) x (clog s) (blog s) (ipc s) (opc s) (hpc s) (tl s) (hI s) (hO s) (trg s).
-Definition set_clog s x := mk (st s) (lk s) (cin s) (sin s) (ibr s) (ibq s) (obr s) (obq s) (slog s) x (blog s) (ipc s) (opc s) (hpc s) (tl s) (hI s) (hO s) (trg s).
-Definition set_blog s x := mk (st s) (lk s) (cin s) (sin s) (ibr s) (ibq s) (obr s) (obq s) (slog s) (clog s) x (ipc s) (opc s) (hpc s) (tl s) (hI s) (hO s) (trg s).
-Definition set_ipc s x := mk (st s) (lk s) (cin s) (sin s) (ibr s) (ibq s) (obr s) (obq s) (slog s) (clog s) (blog s) x (opc s) (hpc s) (tl s) (hI s) (hO s) (trg s).
-Definition set_opc s x := mk (st s) (lk s) (cin s) (sin s) (ibr s) (ibq s) (obr s) (obq s) (slog s) (clog s) (blog s) (ipc s) x (hpc s) (tl s) (hI s) (hO s) (trg s).
-Definition set_hpc s x := mk (st s) (lk s) (cin s) (sin s) (ibr s) (ibq s) (obr s) (obq s) (slog s) (clog s) (blog s) (ipc s) (opc s) x (tl s) (hI s) (hO s) (trg s).
+Definition set_st s x := mk x (lk s) (cin s) (sin s) (ibr s) (ibq s) (obr s) (obq s) (slog s) (clog s) (blog s) (ipc s) (opc s) (hpc s) (tlk s) (hI s) (hO s) (trg s).
+Definition set_lk s x := mk (st s) x (cin s) (sin s) (ibr s) (ibq s) (obr s) (obq s) (slog s) (clog s) (blog s) (ipc s) (opc s) (hpc s) (tlk s) (hI s) (hO s) (trg s).
+Definition set_cin s x := mk (st s) (lk s) x (sin s) (ibr s) (ibq s) (obr s) (obq s) (slog s) (clog s) (blog s) (ipc s) (opc s) (hpc s) (tlk s) (hI s) (hO s) (trg s).
+Definition set_sin s x := mk (st s) (lk s) (cin s) x (ibr s) (ibq s) (obr s) (obq s) (slog s) (clog s) (blog s) (ipc s) (opc s) (hpc s) (tlk s) (hI s) (hO s) (trg s).
+Definition set_ib s r q := mk (st s) (lk s) (cin s) (sin s) r q (obr s) (obq s) (slog s) (clog s) (blog s) (ipc s) (opc s) (hpc s) (tlk s) (hI s) (hO s) (trg s).
+Definition set_ob s r q := mk (st s) (lk s) (cin s) (sin s) (ibr s) (ibq s) r q (slog s) (clog s) (blog s) (ipc s) (opc s) (hpc s) (tlk s) (hI s) (hO s) (trg s).
+Definition set_slog s x := mk (st s) (lk s) (cin s) (sin s) (ibr s) (ibq s) (obr s) (obq s) x (clog s) (blog s) (ipc s) (opc s) (hpc s) (tlk s) (hI s) (hO s) (trg s).
+Definition set_clog s x := mk (st s) (lk s) (cin s) (sin s) (ibr s) (ibq s) (obr s) (obq s) (slog s) x (blog s) (ipc s) (opc s) (hpc s) (tlk s) (hI s) (hO s) (trg s).
+Definition set_blog s x := mk (st s) (lk s) (cin s) (sin s) (ibr s) (ibq s) (obr s) (obq s) (slog s) (clog s) x (ipc s) (opc s) (hpc s) (tlk s) (hI s) (hO s) (trg s).
+Definition set_ipc s x := mk (st s) (lk s) (cin s) (sin s) (ibr s) (ibq s) (obr s) (obq s) (slog s) (clog s) (blog s) x (opc s) (hpc s) (tlk s) (hI s) (hO s) (trg s).
+Definition set_opc s x := mk (st s) (lk s) (cin s) (sin s) (ibr s) (ibq s) (obr s) (obq s) (slog s) (clog s) (blog s) (ipc s) x (hpc s) (tlk s) (hI s) (hO s) (trg s).
+Definition set_hpc s x := mk (st s) (lk s) (cin s) (sin s) (ibr s) (ibq s) (obr s) (obq s) (slog s) (clog s) (blog s) (ipc s) (opc s) x (tlk s) (hI s) (hO s) (trg s).
 Definition set_tl s x := mk (st s) (lk s) (cin s) (sin s) (ibr s) (ibq s) (obr s) (obq s) (slog s) (clog s) (blog s) (ipc s) (opc s) (hpc s) x (hI s) (hO s) (trg s).
-Definition set_hI s x := mk (st s) (lk s) (cin s) (sin s) (ibr s) (ibq s) (obr s) (obq s) (slog s) (clog s) (blog s) (ipc s) (opc s) (hpc s) (tl s) x (hO s) (trg s).
-Definition set_hO s x := mk (st s) (lk s) (cin s) (sin s) (ibr s) (ibq s) (obr s) (obq s) (slog s) (clog s) (blog s) (ipc s) (opc s) (hpc s) (tl s) (hI s) x (trg s).
-Definition set_trg s x := mk (st s) (lk s) (cin s) (sin s) (ibr s) (ibq s) (obr s) (obq s) (slog s) (clog s) (blog s) (ipc s) (opc s) (hpc s) (tl s) (hI s) (hO s) x.
+Definition set_hI s x := mk (st s) (lk s) (cin s) (sin s) (ibr s) (ibq s) (obr s) (obq s) (slog s) (clog s) (blog s) (ipc s) (opc s) (hpc s) (tlk s) x (hO s) (trg s).
+Definition set_hO s x := mk (st s) (lk s) (cin s) (sin s) (ibr s) (ibq s) (obr s) (obq s) (slog s) (clog s) (blog s) (ipc s) (opc s) (hpc s) (tlk s) (hI s) x (trg s).
+Definition set_trg s x := mk (st s) (lk s) (cin s) (sin s) (ibr s) (ibq s) (obr s) (obq s) (slog s) (clog s) (blog s) (ipc s) (opc s) (hpc s) (tlk s) (hI s) (hO s) x.
 
 (* a send on osStdinChan / on a client-side channel, with its ghost event *)
 Definition send_srv s (b : chunk) (e : evI) := set_hI (set_slog s (slog s ++ b)) (hI s ++ [e]).
@@ -255,7 +255,7 @@ Definition step_fn (rc tm : bool) (l : label) (s : state) : option state :=
                                  (if cf then set_st s StT else match st s with StH => set_st s StS | _ => s end)
                                  HN) ByTl) true)
                   | _ => None end
-  | LTlUnlock => if tl s then Some (set_tl (set_lk s Free) false) else None
+  | LTlUnlock => if tlk s then Some (set_tl (set_lk s Free) false) else None
   end.
 
 Definition init (cs ss : list chunk) : state :=
